@@ -454,13 +454,18 @@ def required_keywords(cx):
             ok = isinstance(par, ast.Call) and dotted(par.func) in ('int', 'float')
             if not ok and isinstance(par, ast.Call):   # used in a message .format(...)
                 ok = isinstance(par.func, ast.Attribute) and par.func.attr == 'format'
+            if not ok:
+                # ... or in a %-formatted message: `'..%s..' % (value,)`
+                p2 = fn.parent.get(id(par)) if isinstance(par, ast.Tuple) else par
+                ok = isinstance(p2, ast.BinOp) and isinstance(p2.op, ast.Mod) and isinstance(p2.left, (ast.Constant, ast.BinOp)) and \
+                    (p2.right is n or p2.right is par)
             fn.ob('REQKEY', 'numeric layout keyword %s is converted with a raising int()' % k, ok, n, key='conv-' + k)
     # per-parameter keywords
     fmt = [n for n in fn.walk(into_nested=True) if isinstance(n, ast.Subscript) and dotted(n.value) == 'self._text'
            and isinstance(n.slice, ast.Call)]
     keys = sorted({n.slice.func.value.value for n in fmt if isinstance(n.slice.func, ast.Attribute)
                    and isinstance(n.slice.func.value, ast.Constant)})
-    ok = '$P{0}B' in keys and '$P{0}R' in keys
+    ok = ('$P{0}B' in keys or '$P{}B' in keys) and ('$P{0}R' in keys or '$P{}R' in keys)     # (`{0}` is `{}` in canonical form)
     fn.ob('REQKEY', '$PnB and $PnR are read with raising lookups', ok, fmt[0] if fmt else fn.ast, detail=str(keys), key='req-PnB-PnR')
     return fn
 
@@ -573,16 +578,22 @@ def supplemental_callargs(cx):
         fn.ob('CALLARGS', 'an unparsable ANALYSIS segment yields a warning and an empty dictionary, not other keywords', ok, c,
               key='analysis-tolerant|%d' % an.index(c))
         sv = fn.cfg.stmt_of(c)
-        ok = isinstance(sv, ast.Assign) and sym.norm(_dict_target(sv, c)) == sym.norm('self._analysis')
+        ok = isinstance(sv, ast.Assign) and sym.norm(_dict_target(sv, c, fn)) == sym.norm('self._analysis')
         fn.ob('CALLARGS', 'ANALYSIS keywords are kept apart from TEXT keywords', ok, c, key='analysis-store|%d' % an.index(c))
     return fn
 
 
-def _dict_target(sv, call):
+def _dict_target(sv, call, fn=None):
     """where the dictionary of `... = read_fcs_text_segment(...)[0]` or `d, unused = read_fcs_text_segment(...)` is stored"""
     t = sv.targets[0]
     if sv.value is call and isinstance(t, ast.Tuple) and len(t.elts) == 2:
-        return t.elts[0]
+        t = t.elts[0]
+    if isinstance(t, ast.Name) and fn is not None:
+        # ... or through a temporary that is stored next: `d, unused = read(...)` / `self._analysis = d`
+        uses = [s_ for s_ in fn.stmts(ast.Assign) if isinstance(s_.value, ast.Name) and s_.value.id == t.id and len(s_.targets) == 1
+                and isinstance(s_.targets[0], ast.Attribute)]
+        if len(uses) >= 1 and len({ast.dump(u.targets[0]) for u in uses}) == 1:
+            return uses[0].targets[0]
     return t
 
 
